@@ -151,12 +151,14 @@ def stepAll (st : St) (line : String) : St × String :=
          | _, _ => "bad-op")
       | _ => "bad-op")
   | ["outgoing", e] =>
-    (st, match e with
-      | "eof" => toString (outgoingSurvives .eof)
-      | "reset" => toString (outgoingSurvives .connectionReset)
-      | "brokenpipe" => toString (outgoingSurvives .brokenPipe)
-      | "oserror" => toString (outgoingSurvives .otherOSError)
-      | _ => "bad-op")
+    (st, match (match e with
+        | "eof" => some SendExc.eof | "reset" => some .connectionReset
+        | "brokenpipe" => some .brokenPipe | "oserror" => some .otherOSError
+        | "nonoserror" => some .nonOSError | _ => none) with
+      | some x =>
+        let (alive, s') := outgoingStep st.srv 0 (.failed x)
+        s!"{alive} {if showSrv s' == showSrv st.srv then "same" else "changed"}"
+      | none => "bad-op")
   | "predrain" :: ms =>
     (st, match parseCMsgs ms with | some l => showPreOut (preDrain l) | none => "bad-op")
   | "recv" :: ms =>
